@@ -11,8 +11,10 @@ c13 gff <dialect> <recs> <comments> <fault> <style>  => w:<hex> r:<results> c:<h
 
 * **writer** — the model reader applied to the bytes `w` of the real writer gives the original records
   (attributes as key ↦ value lists), whatever bytes the text columns contain.  A record whose first column starts
-  with `#` and needs no quotes is written unquoted and is therefore read as a comment: reason
-  `writer:hash-start-record-lost` (finding `C13-hash-start-record`);
+  with `#` and needs no quotes (`Tsv.hashStart`) is a comment line in the BED/GFF line format, so a file with such a
+  record is **outside the domain**: verdict `ok hash-start-outside-domain` provided nothing panicked or hung and
+  every record before the first such record round-trips exactly; nothing is demanded of that record and of what
+  follows it.  (A first column that starts with `#` but is quoted by the writer is inside the domain.);
 * **reader** — the real reader on `w` (`r`) gives what the model reader gives on `w`; the real reader on `w` with
   comment and blank lines inserted at record boundaries (`c`) gives what the model reader gives on those bytes
   (tag `comments-vanish` when that equals the reading of `w`, which is the rule); (GFF) writing those records again
@@ -236,7 +238,7 @@ def allOk (es : List Exp) : Option (List String) :=
 /-- reasons of lowest priority: recorded genuine defects (so that any other reason shows first) -/
 def lowPriority (r : String) : Bool :=
   r = "writer:attr-multi-first-only" || r = "fault-not-error:phase-ge3" || r = "fault-not-error:cols10"
-    || r = "rewrite:attr-multi-first-only" || r = "writer:hash-start-record-lost"
+    || r = "rewrite:attr-multi-first-only"
 
 def pickReason (rs : List String) : Option String :=
   match rs.find? (fun r => !lowPriority r) with
@@ -336,7 +338,6 @@ def quoteTags (fields : List (List Nat)) (firsts : List (List Nat)) (w : List Na
     ++ (if has (fun f => f.contains 92 && f.contains QUOTE) then " q-bslash-quote" else "")
     ++ (if has (·.contains HASH) then " q-hash" else "")
     ++ (if firsts.any (fun f => f.head? == some HASH && f.any needsQuote) then " q-hash-first-quoted" else "")
-    ++ (if firsts.any (fun f => hashStart [f]) then " hash-start" else "")
     ++ (if has (fun f => f.head? == some SPACE || f.getLast? == some SPACE) then " q-blank" else "")
     ++ (if has (·.isEmpty) then " q-empty" else "")
     ++ (if has (fun f => f.any fun c => c < 32 && c != TAB && c != LF && c != CR || c == 127) then " q-ctrl" else "")
@@ -351,16 +352,30 @@ def commentsReason (expC : List Exp) (real : List String) : List String :=
 /-- the comment and blank lines vanish: the model reads the bytes with them as it reads the bytes without -/
 def commentsTag (same : Bool) : String := if same then " comments-vanish" else " comments-absorbed"
 
+/-- a file with a `hashStart` record (its written line is a comment line of the format) is outside the domain: the
+`n` records before the first such record must round-trip exactly — model reader on the writer's bytes and real
+reader — and nothing is demanded of the rest -/
+def outsideDomain (kind : String) (n : Nat) (wExp : List Exp) (origPrefix : Option (List String))
+    (r : List String) : String :=
+  let modelOk := origPrefix.isSome && allOk (wExp.take n) = origPrefix && decide (n ≤ wExp.length)
+  let realOk := origPrefix.map (·.map ("ok=" ++ ·)) == some (r.take n)
+  if !modelOk then "reject outside-domain:writer-changed-record-before-hash-start"
+  else if !realOk then "reject outside-domain:reader-changed-record-before-hash-start"
+  else "ok " ++ kind ++ " hash-start hash-start-outside-domain" ++ (if n ≥ 1 then " hash-start-prefix-checked" else "")
+
+/-- number of records before the first one for which `p` holds, if any -/
+def firstIdx {α : Type} (p : α → Bool) (l : List α) : Option Nat :=
+  if l.any p then some (l.takeWhile (fun x => !p x)).length else none
+
 def bedVerdict (recs : List BedRec) (comments fault : String) (o : Obs) : String :=
   let wExp := bedExp o.w
   let cExp := bedExp o.c.1
   let orig := recs.map showBed
-  -- a record the real writer/reader pair is known to lose (the written line is taken for a comment; when a later
-  -- column contains a line feed the rest of the line even shows up as further records): such a file is tainted
-  let tainted := recs.any fun r => hashStart (bedFields r)
+  match firstIdx (fun r => hashStart (bedFields r)) recs with
+  | some n => outsideDomain "bed" n wExp (some (orig.take n)) o.r
+  | none =>
   let reasons : List String :=
     (if allOk wExp = some orig then []
-     else if tainted then ["writer:hash-start-record-lost"]
      else ["writer:lost-or-changed-data"])
     -- the writer's bytes read as the original records: then the real reader has to return exactly those (round
     -- trip); otherwise it is compared with the model on what the bytes determine
@@ -393,12 +408,12 @@ def gffVerdict (dn : String) (d : Dialect) (recs : List GffRead) (comments fault
   let orig := recs.mapM showGff
   let origFirst := (recs.map firstOnly).mapM showGff
   let multi := recs.any fun r => (group r.pairs).any fun kv => kv.2.length ≥ 2
-  -- a record the real writer/reader pair is known to lose (see `bedVerdict`)
-  let tainted := recs.any fun r => hashStart [r.seqname]
+  match firstIdx (fun r => hashStart [r.seqname]) recs with
+  | some n => outsideDomain dn n wExp ((recs.take n).mapM showGff) o.r
+  | none =>
   let writerReason : List String :=
     if orig.isSome && allOk wExp = orig then []
     else if multi && origFirst.isSome && allOk wExp = origFirst then ["writer:attr-multi-first-only"]
-    else if tainted then ["writer:hash-start-record-lost"]
     else ["writer:lost-or-changed-data"]
   let rwReason : List String :=
     match o.rw with
